@@ -110,10 +110,13 @@ class counterfactual_sort(object):
 def confirmed_by_counterfactual(mode, spec, s2, L, case):
     """True if, with the corrected sort inputs, the absence run + remove_absence_time_list equals the absence-free run."""
     try:
-        with counterfactual_sort(mode, L):
+        # (the absence-free run has no absence entries in its logs: under 'fifo' it runs with the sort as it is -
+        # filtering the indices of L out of ITS logs would distort it; thorough tier, DESIGN 5.3 #16)
+        with counterfactual_sort(mode, L if mode != "fifo" else ()):
             I.set_order(I.default_order(spec))
             mb = B.build(spec)
             B.run(mb.project, spec)
+        with counterfactual_sort(mode, L):
             I.set_order(I.default_order(spec))
             mc = B.build(s2)
             if case.get("pause"):
@@ -354,6 +357,8 @@ def run_case(case):
         mech = "C10/equivalence"
         kstar = first_divergence(a, b)
         res.count("C10.equivalence_differences_classified")
+        facts = dict(kstar=kstar, ready_logged_at_absence=ready_logged_at_absence, working_logged_at_absence=working_logged_at_absence,
+                     fifo_sensitive_at_kstar=kstar in ow1.fifo_sensitive, near_tie_at_kstar=(kstar in ow0.near_tie or kstar in ow1.near_tie))
         if (spec["sim"]["rule"] == int(ns.TaskPriorityRuleMode.FIFO) and ready_logged_at_absence and not working_logged_at_absence
                 and kstar is not None and kstar in ow1.fifo_sensitive
                 and confirmed_by_counterfactual("fifo", spec, s2, L, case)):
@@ -373,6 +378,6 @@ def run_case(case):
             has_auto = any(t["auto"] for t in spec["tasks"])
             mech += ":auto-task" if has_auto else ":other"
         res.violate("C10", mech, "absence list %s: result after remove_absence_time_list differs from the absence-free run at %s (%r vs %r)" % (
-            L, path, diff[1], diff[2]), absence=L, path=path)
+            L, path, diff[1], diff[2]), absence=L, path=path, facts=facts)
     res["nontrivial"] = res["counters"].get("C10.absence_steps_with_working_task", 0) > 0
     return res
